@@ -6,6 +6,7 @@ From MZ.lib Require Import Arr Bits.
 From MZ.spec Require Import Adler Crc DeflateSpec.
 From MZ.gen Require Import GenZlib GenTables.
 From MZ.model Require Import Oracle InflateCore InflateDrive InflateStream.
+From MZ.model Require DeflateCore.
 
 Extraction Language OCaml.
 Extraction "mzmodel.ml"
@@ -22,4 +23,7 @@ Extraction "mzmodel.ml"
   InflateCore.status_code InflateCore.state_id
   InflateDrive.drive
   InflateStream.is_new InflateStream.min_reset InflateStream.zero_reset InflateStream.full_reset
-  InflateStream.inflate InflateStream.decompress_to_vec_inner InflateStream.decompress_slice_iter_to_slice.
+  InflateStream.inflate InflateStream.decompress_to_vec_inner InflateStream.decompress_slice_iter_to_slice
+  DeflateCore.comp_new DeflateCore.comp_reset DeflateCore.with_params DeflateCore.DEFAULT_FLAGS
+  DeflateCore.compress DeflateCore.compress_to_output DeflateCore.deflate DeflateCore.compress_to_vec_inner
+  DeflateCore.tstatus_code.
